@@ -63,6 +63,12 @@ FORMS = [
     ("line_comments", "// head\nfn dsp(){ // after brace\n  let a = 1.0 // trailing\n  // own line\n  a // last\n}\n// tail\n"),
     ("block_comments", "/* head */\nfn dsp(){ /* a */ let a = /* b */ 1.0 /* c */\n a /* d */ }\n"),
     ("comment_in_args", "fn f(x, y){ x + y }\nfn dsp(){ f( /* first */ 1.0, // second\n 2.0 ) }\n"),
+    ("comment_before_close_brace", "fn f(x){\n  let y = x * 2.0\n  y\n/* end of f */ }\nfn dsp(){ f(1.0) }\n"),
+    ("comment_before_open_brace", "fn dsp()\n/* body */ {\n  1.0\n}\n"),
+    ("comment_before_lambda_comma", "fn dsp(){ let g = |a\n/* between */ , b| a + b\n g(1.0, 2.0) }\n"),
+    ("comment_before_record_comma", "fn dsp(){ let r = {a = 1.0\n/* between */ , b = 2.0}\n r.a + r.b }\n"),
+    ("comment_before_macro_comma", "#stage(macro)\nfn two(p, q){ `{ $p + $q } }\n#stage(main)\nfn dsp(){ two!(`1.0\n/* between */ , `2.0) }\n"),
+    ("comment_line_start_before_token", "fn dsp(){\n  let a = 1.0\n/* lead */ a + 2.0\n}\n"),
     ("long_line", "fn dsp(){ 1.0 + 2.0 + 3.0 + 4.0 + 5.0 + 6.0 + 7.0 + 8.0 + 9.0 + 10.0 + 11.0 + 12.0 + 13.0 + 14.0 + 15.0 + 16.0 + 17.0 + 18.0 }\n"),
     ("long_call", "fn f(a, b, c, d, e, g){ a + b + c + d + e + g }\nfn dsp(){ f(1.0000001, 2.0000002, 3.0000003, 4.0000004, 5.0000005, 6.0000006) }\n"),
     ("semicolons", "let a = 1.0;\nfn dsp(){ a; a }\n"),
